@@ -357,8 +357,8 @@ def run(ctx):
     ctx.write_generated("C30", lib_sftpgen.lean_source())
     ctx.build()
     rng = ctx.rng
-    n_cls = 6000 if ctx.thorough else 1100
-    n_mal = 5000 if ctx.thorough else 900
+    n_cls = 12000 if ctx.thorough else 2400
+    n_mal = 10000 if ctx.thorough else 2000
     reqs, expect, cases = [], [], []
     srv = Srv(rng)
     try:
@@ -444,7 +444,7 @@ def run(ctx):
             if got != want:
                 bad.add(ci)
                 ctx.disagree("client-lockstep", {"case": lcases[ci], "request": lreqs[idx][:120]}, str(got), str(want))
-    n_mix = 300 if ctx.thorough else 45
+    n_mix = 500 if ctx.thorough else 80
     for i in range(n_mix):
         desc, failure = client_mix_case(ctx, rng)
         ctx.case(("mix", repr(desc)), True)
@@ -460,7 +460,8 @@ META = {
     "level": ("Proved in Lean: the dispatcher answers every request — any command byte, any id, any handle kind, any "
               "callback outcome (result / error code / exception), any extended tag, any exit of check-file — with "
               "exactly one packet carrying the same id and a type valid for the request (one_response_same_id_valid_type); "
-              "failures are STATUS; every packet type that a responder call in any branch of the *source* of _process "
+              "failures are STATUS; every control-flow path through every branch of the source of _process and through its "
+              "helpers calls a responder exactly once (source_paths_send_exactly_once, AST table); every packet type that a responder call in any branch of the *source* of _process "
               "and its helpers can emit is valid for that branch (table regenerated from the AST each run: "
               "source_branches_emit_valid_types), and the model stays within that table. Client: no call ever waits "
               "with nothing outstanding, for every program mixing pipelined writes, plain writes, other requests and "
